@@ -49,6 +49,12 @@ class KeySpec(object):
         if name == 'jsonpickle.encode':
             lib.used('A1 jsonpickle.encode is a function of the structural value (lists: of their elements; name-sorted item lists: of the dict contents); may raise an ordinary exception')
             v = pos[0]; s2 = st.copy()
+            from specs.a1 import faithful_options
+            if not faithful_options(st, kw):
+                # A1 speaks of encode(value, unpicklable=True) with default options only: any other option gives SOME text, with no claim that
+                # it is a function of the structural value alone (unpicklable=False drops class tags; make_refs / keys change the layout)
+                lib.used('A1 (negative): encode with options other than unpicklable=True gives no guarantee')
+                return [(st, ('val', Val.s(fresh('encoded_with_other_options', Str)))), (s2, ('exc', s2.sym_exc(ordinary=True, label='exc_encode')))]
             if ex.is_kind(st, v, 'sorteditems'):
                 dom, mp = st.dcontents(st.rd(v, 'of')); r = ENCD(dom, mp)
             elif ex.is_kind(st, v, 'itemlist'):
